@@ -750,5 +750,38 @@ def r09_after_refusal(ctx):
         ctx.functions.add(q)
 
 
-RULES = [('R09.10', r09_byte_payloads), ('R09.9', r09_after_refusal), ('R09.8', r09_default_charset), ('R09-vlq', r09_vlq), ('R09.7', r09_codec), ('R09-registry', r09_registry), ('R09.3', r09_3), ('R09.1', r09_1), ('R09-tables', r09_tables), ('R09.2', r09_2),
+def r09_raw_stream(ctx):
+    """Reading a meta event from a track does not depend on how the stream hands out its bytes.  read() on a raw (unbuffered)
+    stream, a pipe or a socket file may return fewer bytes than asked for without being at the end; the event reader, run on a
+    stream double that never returns more than two bytes per call, must give the same message as on a buffered file (a payload
+    fetched with one read(length) and declared truncated when it comes back short does not)."""
+    fn = ctx.fn(ctx.p.func(smf.MF, 'read_meta_message'))
+    w = ctx.where(fn)
+    for label, stream, want in (('unknown meta 0x60', [0x60, 4, 9, 8, 7, 6], ('unknown_meta', 'data', (9, 8, 7, 6))),
+                                ('set_tempo', [0x51, 3, 0x07, 0xa1, 0x20], ('set_tempo', 'tempo', 500000)),
+                                ('sequencer_specific', [0x7f, 5, 1, 2, 3, 4, 5], ('sequencer_specific', 'data', (1, 2, 3, 4, 5)))):
+        res = {}
+        for mode in (None, 2):
+            ai = smf.make_interp(ctx)
+            ai.summaries.pop('mido/midifiles/midifiles.py::read_bytes', None)
+
+            def thunk(mode=mode, ai=ai):
+                f_ = AFile(stream=list(stream), name='in')
+                f_.max_per_read = mode
+                m_ = ai.call_function(fn, [f_, 0], {})
+                v = m_.attrs.get(want[1]) if isinstance(m_, AObj) else None
+                if isinstance(v, AList):
+                    v = tuple(v.items)
+                elif isinstance(v, list):
+                    v = tuple(v)
+                return (m_.attrs.get('type') if isinstance(m_, AObj) else None, v, f_.pos)
+            outs = ai.explore(thunk)
+            res[mode] = [o.value if o.kind == 'return' else f'raise {o.exc}' for o in outs]
+        exp = [(want[0], want[2], len(stream))]
+        ctx.require(res[None] == exp and res[2] == exp, 'R09.11', f'read_meta_message({label}) from a stream that returns at most 2 bytes per read()', w,
+                    f'buffered stream: {res[None]}; at most two bytes per read(): {res[2]}; expected {exp} both times',
+                    construct=f'{fn.qname}::short-reads')
+
+
+RULES = [('R09.11', r09_raw_stream), ('R09.10', r09_byte_payloads), ('R09.9', r09_after_refusal), ('R09.8', r09_default_charset), ('R09-vlq', r09_vlq), ('R09.7', r09_codec), ('R09-registry', r09_registry), ('R09.3', r09_3), ('R09.1', r09_1), ('R09-tables', r09_tables), ('R09.2', r09_2),
          ('R09.4', r09_4), ('R09.5', r09_5), ('R09.6', r09_6)]
